@@ -3,5 +3,7 @@ CONSTANTS
   MaxLen = 6
   MaxDepth = 3
   Fuel = 80
+  Alphabet = {"O", "IO", "EO", "EIO", "C", "IG", "EG", "EIG", "G", "L", "LP", "P", "INC"}
+  Names = {"y"}
 INVARIANTS MachineSane NoUB Monitors Scans EmitCase
 CHECK_DEADLOCK FALSE
